@@ -21,13 +21,13 @@ def writer_model(chk, name, scn, named, compressed, fault=0, persistent=False, b
     shutil.rmtree(work, ignore_errors=True)
 
 
-def run_scenarios(chk, mode, scenarios, relevant, label, timeout=2400, flavor="plain"):
+def run_scenarios(chk, mode, scenarios, relevant, label, timeout=2400, flavor="plain", defs=()):
     work = vlib.scratch(label)
     sf = work / "scenarios.ndjson"
     with open(sf, "w") as f:
         for s in scenarios:
             f.write(json.dumps(s) + "\n")
-    exe = vlib.build_driver("wr_driver", flavor)
+    exe = vlib.build_driver("wr_driver", flavor, defs)
     nsh = min(vlib.NCPU, len(scenarios))
     files = [work / f"wr.{i}.ndjson" for i in range(nsh)]
     cmds = [[exe, mode, sf, i, nsh, files[i]] for i in range(nsh)]
@@ -168,6 +168,21 @@ def exporter_scenarios(rng, tier, comps=("none", "gz", "xz"), kinds=("file", "fd
                     steps = steps + [{"op": "recover"}]
                 scs.append({"id": sid, "target": "exporter", "comp": comp, "kind": kind, "max": mx, "steps": steps,
                             "pre": [2] if kind == "file" else []})
+    return scs
+
+
+def alignment_scenarios(tier):
+    """For the build whose encoder staging buffer is 12 bytes: exporter outputs whose last record ends with a text of
+    every length 0..13 (+1 for every other record), closed by rotation and by destruction - the closing break meets
+    every fill level of the buffer, 'exactly full' included."""
+    scs = []
+    sid = 9900
+    for comp in (["none", "gz"] if tier == "quick" else ["none", "gz", "xz"]):
+        for n in range(0, 14, 1 if tier == "thorough" else 2):
+            sid += 1
+            scs.append({"id": sid, "target": "exporter", "comp": comp, "kind": "file", "max": 10000,
+                        "steps": [{"op": "rec", "n": 1 + n % 3, "asn": n}, {"op": "rot", "export": True}, {"op": "rec", "n": 2, "asn": n + 1},
+                                  {"op": "wb"}], "pre": []})
     return scs
 
 
